@@ -33,6 +33,7 @@ import (
 const (
 	limitTotal   = 1024 // total sub-policies over all visited thresholds
 	limitBreadth = 255  // children of one threshold
+	limitDepth   = 32   // nesting depth the binary decoder (and therefore every peer) accepts
 )
 
 type env struct {
@@ -213,6 +214,9 @@ func evalTop(p types.SpendPolicy, e env, sigs []types.Signature, pre [][32]byte)
 		out = matchKeys(uc.PublicKeys, sigs, uc.SignaturesRequired, e.sigHash)
 		out.pre = pre
 	} else {
+		if policyDepth(p) > limitDepth {
+			return false, "too-complex/depth" // deeper than any encoding can carry
+		}
 		out = evalNode(p, e, sigs, pre)
 		if out.ok && visitedSubPolicies(p) > limitTotal {
 			return false, "too-complex/total"
@@ -339,6 +343,9 @@ func flatTop(p types.SpendPolicy, e env, sigs []types.Signature, pre [][32]byte)
 	if uc, ok := p.Type.(types.PolicyTypeUnlockConditions); ok {
 		return e.height >= uc.Timelock && len(pre) == 0 &&
 			existsMatching(uc.PublicKeys, sigs, uc.SignaturesRequired, e.sigHash)
+	}
+	if policyDepth(p) > limitDepth {
+		return false
 	}
 	f := flatten(p, e)
 	if !f.structOK || !f.locksOK || f.total > limitTotal {
